@@ -416,6 +416,11 @@ func recoverEngine(logger log.Logger, expr parser.Expr, errp *error) {
 
 		level.Error(logger).Log("msg", "runtime panic in engine", "expr", expr.String(), "err", e, "stacktrace", string(buf))
 		*errp = errors.Wrap(err, "unexpected error")
+	case error:
+		// A panic is never a successful evaluation.
+		*errp = errors.Wrap(err, "unexpected error")
+	default:
+		*errp = errors.Newf("unexpected error: %v", e)
 	}
 }
 
